@@ -36,14 +36,6 @@ theorem C12_out_stores_iff (vd : Nat → V → Bool) (st : OutSt) (hwf : wfPorts
       · exact absurd h2 hn
       · exact absurd h3 hn
 
-theorem dropLast_append_getLastD : ∀ (l : List String), l ≠ [] → l.dropLast ++ [l.getLastD ""] = l
-  | [], h => absurd rfl h
-  | [a], _ => rfl
-  | a :: b :: t, _ => by
-      have := dropLast_append_getLastD (b :: t) (by simp)
-      simp only [List.dropLast_cons_cons, List.cons_append, List.getLastD_cons] at this ⊢
-      rw [this]
-
 /-- **C12, a stored value.**  On success the new outputs are the old ones with the value inserted at the path: it is
 found there, and every path that is neither above nor below it reads as before; the listeners are told
 `(path, value, dynamic)` once, `dynamic` saying that the last name is not a declared port. -/
@@ -111,48 +103,6 @@ theorem C12_successful_iff (vd : Nat → V → Bool) (st : OutSt) (hwf : wfPorts
       simp [this]
 
 /-! ## whole runs -/
-
-/-- the emissions whose `out` call returned, with the flag it returned, in call order -/
-def accepted : List (List String × V) → List (Except Err Bool) → List (List String × V × Bool)
-  | (path, v) :: ems, .ok d :: rs => (path, v, d) :: accepted ems rs
-  | _ :: ems, .error _ :: rs => accepted ems rs
-  | _, _ => []
-
-theorem replay_append (o : Items) : ∀ (l l' : List (List String × V × Bool)), replay o (l ++ l') = replay (replay o l) l'
-  | [], l' => rfl
-  | (path, v, d) :: l, l' => by
-      simp only [List.cons_append, replay]
-      cases store o path.dropLast (path.getLastD "") v <;> exact replay_append _ l l'
-
-theorem outs_master (vd : Nat → V → Bool) : ∀ (ems : List (List String × V)) (st : OutSt), wfPorts st.ports = true →
-    wfPorts (outs vd st ems).1.ports = true ∧ (outs vd st ems).1.top = st.top ∧
-    (outs vd st ems).1.emitted.reverse = st.emitted.reverse ++ accepted ems (outs vd st ems).2 ∧
-    (st.outputs = replay [] st.emitted.reverse →
-      (outs vd st ems).1.outputs = replay [] (outs vd st ems).1.emitted.reverse)
-  | [], st, hwf => by simp [outs, accepted, hwf]
-  | (path, v) :: rest, st, hwf => by
-      obtain ⟨hw1, ht1, hm⟩ := out_master vd st hwf path v
-      obtain ⟨ihw, iht, ihe, iho⟩ := outs_master vd rest (out vd st path v).1 hw1
-      simp only [outs]
-      refine ⟨ihw, iht.trans ht1, ?_, ?_⟩
-      · rw [ihe]
-        cases hr : (out vd st path v).2 with
-        | ok d =>
-          rw [hr] at hm; obtain ⟨_, _, _, _, _, _, h5⟩ := hm
-          simp [accepted, h5]
-        | error e =>
-          rw [hr] at hm
-          simp [accepted, hm.2.1]
-      · intro hinv
-        apply iho
-        cases hr : (out vd st path v).2 with
-        | ok d =>
-          rw [hr] at hm; obtain ⟨_, _, _, _, _, h4, h5⟩ := hm
-          rw [h5, List.reverse_cons, replay_append, ← hinv]
-          simp only [replay, h4]
-        | error e =>
-          rw [hr] at hm
-          rw [hm.1, hm.2.1]; exact hinv
 
 /-- **C12, "stored values are what the process future and listeners later report".**  For a process whose step makes
 any sequence of `out` calls (catching their errors) and then returns: the notifications `on_output_emitted` are exactly
